@@ -279,6 +279,7 @@ structure St where
   chain : Option Nat := none     -- rest.WithChain
   cors : Bool := false           -- rest.WithCors: server.router is a corsRouter
   uses : List Nat := []          -- Server.Use middlewares so far (ids, in Use order)
+  rereg : List (String × List String) := []  -- (method, cleaned pattern) re-registered with ANOTHER handler and rejected
 
 def patKind (pats : List String) : String :=
   String.ofList (pats.map fun k => if isVar k then 'v' else if k = "" then 'r' else 'l')
@@ -360,6 +361,12 @@ def runReq (r : Report) (st : St) (sidx : Nat) (l : Line) (m p : String) (auth :
     r := r.addCover (if ps.isEmpty then "hit-literal-only" else if kind.contains 'l' then "hit-mixed" else "hit-vars-only")
     if !outer.isEmpty then
       r := r.addCover (if ps.isEmpty then "hit-literal-route-keeps-outer-vars" else "hit-vars-replace-outer-vars")
+    match route with
+    | some pats =>
+      if st.rereg.contains (m, pats) then
+        r := r.addCover ("req-after-rejected-re-registration-" ++
+          (if pats = [""] then "root" else if pats.any isVar then "variable-pattern" else "literal-pattern"))
+    | none => pure ()
     if cs.length > 1 then r := r.addCover "hit-several-candidates"
     -- backtracking: where the chosen route has a variable, a literal child for the request's token
     -- existed (it is searched first and must have failed)
@@ -507,6 +514,16 @@ def runSection (r : Report) (s : Section) : Report := Id.run do
         match res with
         | .ok pr' => st := { st with pr := pr' }
         | .error _ => pure ()
+        -- class of seeded change C09-9: the same (method, cleaned pattern) again with a DIFFERENT handler
+        if sv = .dup ∧ rooted p then
+          let pats := cleanToks p
+          match st.tbl.find? (fun x => x.method == m && x.pats == pats), item with
+          | some x, some h =>
+            if x.h ≠ h then
+              st := { st with rereg := st.rereg ++ [(m, pats)] }
+              r := r.addCover ("route-rejected-re-registration-with-another-handler-" ++
+                (if pats = [""] then "root" else if pats.any isVar then "variable-pattern" else "literal-pattern"))
+          | _, _ => pure ()
         if st.served then r := r.addCover "route-after-requests"
         if sv = .ok ∧ rooted p then
           for c in prefixClass ((st.tbl.filter (·.method == m)).map (·.pats)) (cleanToks p) do r := r.addCover c
@@ -609,6 +626,18 @@ def runSection (r : Report) (s : Section) : Report := Id.run do
       let gl := st.groups.map Group.regs
       match firstRejected tbl0 gl.flatten 0 with
       | some k =>
+        -- the rejected route: a re-registration of a bound (method, cleaned pattern) with another handler?
+        match gl.flatten[k]? with
+        | some (rm, rp, some rh) =>
+          if rooted rp then
+            match tbl'.find? (fun x => x.method == rm && x.pats == cleanToks rp) with
+            | some x =>
+              if x.h ≠ rh then
+                st := { st with rereg := st.rereg ++ [(rm, cleanToks rp)] }
+                r := r.addCover ("bind-rejected-re-registration-with-another-handler-" ++
+                  (if cleanToks rp = [""] then "root" else if (cleanToks rp).any isVar then "variable-pattern" else "literal-pattern"))
+            | none => pure ()
+        | _ => pure ()
         let (gi, pos, glen) := locateReg gl k 0
         r := r.addCover (if pos + 1 < glen then "bind-rejected-route-not-last-of-its-group" else "bind-rejected-route-last-of-its-group")
         r := r.addCover (if gi + 1 < gl.length then "bind-rejected-in-a-group-that-is-not-the-last" else "bind-rejected-in-the-last-group")
